@@ -1675,15 +1675,18 @@ func (h *fsmHandler) openconfirm(ctx context.Context) (bgp.FSMState, *fsmStateRe
 	wg.Add(1)
 	reasonCh := make(chan fsmStateReason, 1)
 	recvChan := make(chan *fsmMsg, 1)
-	go h.recvMessage(ctx, fsm.conn, recvChan, reasonCh, wg)
+	// the connection this state was entered with; fsm.conn changes when an
+	// outgoing connection wins a collision.
+	recvConn := fsm.conn
+	go h.recvMessage(ctx, recvConn, recvChan, reasonCh, wg)
 
 	defer func() {
 		// for to stop the recv goroutine
-		fsm.conn.SetReadDeadline(time.Now())
+		recvConn.SetReadDeadline(time.Now())
 		wg.Wait()
 		close(recvChan)
 		// reset the read deadline
-		fsm.conn.SetReadDeadline(time.Time{})
+		recvConn.SetReadDeadline(time.Time{})
 	}()
 
 	fsm.lock.Lock()
@@ -1718,6 +1721,31 @@ func (h *fsmHandler) openconfirm(ctx context.Context) (bgp.FSMState, *fsmStateRe
 			}
 			conn.Close()
 			fsm.logger.Warn("Closed an accepted connection", slog.String("State", fsm.state.String()))
+		case result := <-fsm.outgoingConnCh:
+			// RFC 4271 6.8: the peer's OPEN arrived on the outgoing connection
+			// while the incoming one is in OpenConfirm. Only the connection
+			// initiated by the speaker with the higher BGP Identifier survives.
+			if !fsm.isDominant(result.open.Body.(*bgp.BGPOpen)) {
+				fsm.logger.Debug("collision detected: dominant on passive side, close the outgoing connection")
+				result.conn.Close()
+				break
+			}
+			fsm.logger.Debug("collision detected: dominant on active side, close the incoming connection")
+			b, _ := bgp.NewBGPKeepAliveMessage().Serialize()
+			result.conn.SetWriteDeadline(time.Now().Add(time.Second))
+			if _, err := result.conn.Write(b); err != nil {
+				result.conn.Close()
+				fsm.logger.Warn("failed to send keepalive on outgoing connection", slog.String("Error", err.Error()))
+				break
+			}
+			fsm.bgpMessageStateUpdate(bgp.BGP_MSG_KEEPALIVE, false)
+			fsm.conn.Close()
+			fsm.lock.Lock()
+			fsm.conn = result.conn
+			fsm.recvOpen = result.open
+			fsm.lock.Unlock()
+			// enter OpenConfirm again, with what the surviving connection negotiated
+			return bgp.BGP_FSM_OPENCONFIRM, newfsmStateReason(fsmOpenMsgReceived, result.open, nil)
 		case <-fsm.gracefulRestartTimer.C:
 			conf := fsm.pConf.ReadOnly()
 			restarting := conf.GracefulRestart.State.PeerRestarting
